@@ -1,5 +1,6 @@
 import CacheVerif.Proofs.ProtoLocks
 import CacheVerif.Proofs.ProtoData
+import CacheVerif.Proofs.ConcCacheLin
 /-!
 # C16 — reads never wait for writers: lookups finish while a writer or resize stalls
 
@@ -9,7 +10,9 @@ per counter stripe; no guard of these steps depends on any other thread, and the
 *every* state — reachable or not, whatever the other threads are doing: inside `valueFn`, between any two of their
 atomic operations, between table copy and publish — a solo run of the reader finishes in 2 of its own steps
 (`Size`: 1 + the number of stripes).  That the real multi-read scan of a chain (M4b) is bounded
-by the chain length in a solo run, and the cache-level statement, are in `Props/C16` of M4b/M5 (see DESIGN.md).
+by the chain length in a solo run is `C03_solo_reader` / `C04_solo_reader`; the cache-level statement (M5: `Get`,
+`GetWithExpiration`, `GetWithTTL` of a present, unexpired key are a lock-free `Load` plus clock reads, never the
+`Compute` path) is at the end of this file.
 -/
 namespace Props.C16
 open Model.Proto Proofs.ProtoLocks
@@ -110,5 +113,41 @@ theorem C16_solo_loadOrStore_hit (t : Tid) (g : G K V) (l : L K V) (k : K) (f : 
     | some (g', l') => g' = g ∧ l'.pc = .ret ∧ l'.result = some (.val (some x) true) ∧ l'.fnCalls = 0
     | none => False := by
   simp [soloRun, tstep, hl, startOp, opKey, hx]
+
+/-! ### cache level (M5): the hit path of the `Get` family -/
+section cache
+open Model.ConcCache Proofs.ConcCacheLin
+
+variable {K V : Type} [DecidableEq K] [Inhabited V]
+
+/-- the steps of the `Get` family outside its double-check `Compute` — the lock-free `Load`, the expiry test against
+the clock, `GetWithTTL`'s second clock read — write nothing shared -/
+theorem C16_cache_get_reads_only (t : Model.ConcCache.Tid) (g : Model.ConcCache.G K V) (l : Model.ConcCache.L K V)
+    (c : Model.ConcCache.Choice K V) (g' : Model.ConcCache.G K V) (l' : Model.ConcCache.L K V)
+    (hpc : l.pc = .getLoad ∨ l.pc = .getChkClock ∨ l.pc = .getTTLClock)
+    (hs : Model.ConcCache.tstep t g l c = some (g', l')) : g' = g :=
+  tstep_local t g l c g' l' (by rcases hpc with h | h | h <;> rw [h] <;> rfl) hs
+
+/-- a `Get`-family call whose lock-free `Load` found an entry that is unexpired at its clock reading never takes
+the write path (`Compute` under the bucket lock): it returns, or (GetWithTTL) reads the clock once more -/
+theorem C16_cache_hit_never_computes (t : Model.ConcCache.Tid) (g : Model.ConcCache.G K V) (l : Model.ConcCache.L K V)
+    (c : Model.ConcCache.Choice K V) (g' : Model.ConcCache.G K V) (l' : Model.ConcCache.L K V)
+    (i : Model.Item V) (hpc : l.pc = .getChkClock) (hl : l.loaded = some i)
+    (hlive : Gen.item_expired i.e g.now = false)
+    (hs : Model.ConcCache.tstep t g l c = some (g', l')) :
+    g' = g ∧ (l'.pc = .ret ∨ l'.pc = .getTTLClock) := by
+  refine ⟨tstep_local t g l c g' l' (by rw [hpc]; rfl) hs, ?_⟩
+  simp only [Model.ConcCache.tstep, hpc, hl] at hs
+  cases hop : l.op with
+  | none => rw [hop] at hs; cases hs
+  | some op =>
+    rw [hop] at hs
+    simp only [hlive, Bool.not_false, if_true, Option.some.injEq, Prod.mk.injEq] at hs
+    obtain ⟨-, rfl⟩ := hs
+    rcases afterHit_cases l op i g.now with ⟨_, h⟩ | ⟨_, _, _, h⟩ <;> rw [h]
+    · exact Or.inl rfl
+    · exact Or.inr rfl
+
+end cache
 
 end Props.C16
